@@ -40,79 +40,30 @@ def acc(index, rep):
         raise AnalysisError("run_model_no_trade: the single pass over no_trade_table.iterrows() was not found")
     loop = loops[0]
     li = fn.body.index(loop)
+    ret0 = [r for r in fn.body if isinstance(r, ast.Return)]
+    if len(ret0) != 1 or not isinstance(ret0[0].value, (ast.List, ast.Tuple)) or len(ret0[0].value.elts) != 4:
+        raise AnalysisError("run_model_no_trade no longer returns [world, net_pop, net_pop_fed, results]")
     # initialisation before the loop
-    for name in ("net_pop", "net_pop_fed"):
+    for name in (norm_src(ret0[0].value.elts[1]), norm_src(ret0[0].value.elts[2])):
         sts = _stores(fn, name)
         inits = [s for s in sts if isinstance(s, ast.Assign) and s in fn.body and fn.body.index(s) < li
                  and isinstance(s.value, ast.Constant) and s.value.value == 0]
         augs = [s for s in sts if isinstance(s, ast.AugAssign)]
         others = [s for s in sts if s not in inits and s not in augs]
-        rep.check(len(inits) == 1 and len(augs) == 1 and not others and isinstance(augs[0].op, ast.Add), rule, f"{name}:single-accumulator",
-                  f"{name} must be initialised to 0 before the loop and only ever increased by one `+=` inside it "
+        rep.check(len(inits) == 1 and not others and all(isinstance(a.op, ast.Add) and any(a is x for x in ast.walk(loop)) for a in augs), rule,
+                  f"{name}:starts-at-zero, changed only inside the country loop",
+                  f"{name} must be initialised to 0 before the loop and only ever increased inside it "
                   f"(inits {len(inits)}, +=/other {len(augs)}/{len(others)})", loc=loc(RMNT, fn))
-    fed = [s for s in _stores(fn, "net_pop_fed") if isinstance(s, ast.AugAssign)]
-    pop = [s for s in _stores(fn, "net_pop") if isinstance(s, ast.AugAssign)]
-    if len(fed) != 1 or len(pop) != 1:
-        return
-    fed, pop = fed[0], pop[0]
-    # same basic block of the loop body
-    block = loop.body
-    same = fed in block and pop in block
-    rep.check(same, rule, "accumulators:same-block",
-              "numerator and denominator are not updated in the same basic block of the country loop (a country could count in "
-              "one and not the other)", loc=loc(RMNT, fed))
-    if same:
-        i, j = sorted((block.index(fed), block.index(pop)))
-        between = block[i + 1: j]
-        exits = [s for s in between for n in ast.walk(s) if isinstance(n, (ast.Continue, ast.Break, ast.Return, ast.Raise))]
-        rep.check(not exits, rule, "accumulators:no-exit-between", "a continue/break/return separates the two accumulations",
-                  loc=loc(RMNT, fed))
-    # the summands
-    pv = norm_src(pop.value)
-    rep.check(pv == "population", rule, "denominator:summand", f"net_pop is increased by {pv!r}, not by the country's population",
-              loc=loc(RMNT, pop))
-    fv = fed.value
-    ok_prod = isinstance(fv, ast.BinOp) and isinstance(fv.op, ast.Mult) and {norm_src(fv.left), norm_src(fv.right)} >= {"population"}
-    capname = None
-    if ok_prod:
-        capname = norm_src(fv.left) if norm_src(fv.right) == "population" else norm_src(fv.right)
-    rep.check(ok_prod, rule, "numerator:summand", "net_pop_fed is not increased by <capped ratio> * population", loc=loc(RMNT, fed))
-    # the cap: capname == min(1, needs_ratio)
-    if capname:
-        rep.check(_is_min1(block, block.index(fed), capname, "needs_ratio"), rule, "cap:min(1,ratio)",
-                  f"{capname} is not min(1, needs_ratio) on every path reaching the accumulation", loc=loc(RMNT, fed))
-    # population is the row's own population; ratio is slot 0 of run_optimizer_for_country
-    pops = [s for s in block if isinstance(s, ast.Assign) and norm_src(s.targets[0]) == "population"]
-    rep.check(len(pops) == 1 and norm_src(pops[0].value) == "country_data['population']", rule, "population:source",
-              "population is not the current row's 'population' column", loc=loc(RMNT, loop))
-    calls = [s for s in block if isinstance(s, ast.Assign) and isinstance(s.value, ast.Call)
-             and dotted(s.value.func) == "self.run_optimizer_for_country"]
-    ok = len(calls) == 1 and isinstance(calls[0].targets[0], ast.Tuple) and norm_src(calls[0].targets[0].elts[0]) == "needs_ratio"
-    rep.check(ok, rule, "ratio:source", "needs_ratio is not the first element returned by run_optimizer_for_country", loc=loc(RMNT, loop))
-    rofc = index.func(RMNT, "ScenarioRunnerNoTrade.run_optimizer_for_country")
-    rets = [r for r in walk_no_nested(rofc) if isinstance(r, ast.Return)]
-    ok = bool(rets) and all(isinstance(r.value, ast.Tuple) and norm_src(r.value.elts[0]) == "percent_people_fed / 100" for r in rets)
-    rep.check(ok, rule, "ratio:percent/100", "run_optimizer_for_country does not return percent_people_fed / 100 in slot 0",
-              loc=loc(RMNT, rofc))
-    # skip tests precede the accumulation and every `continue` in the loop is before it
-    conts = [n for n in ast.walk(loop) if isinstance(n, ast.Continue)]
-    rep.check(all(c.lineno < fed.lineno and c.lineno < pop.lineno for c in conts), rule, "continues-before-accumulation",
-              "a `continue` follows an accumulation (partial update)", loc=loc(RMNT, loop))
-    # results keyed by country name, stored in the same block after the accumulations
-    rs = [s for s in walk_no_nested(loop) if isinstance(s, ast.Assign) and isinstance(s.targets[0], ast.Subscript)
-          and norm_src(s.targets[0].value) == "results"]
-    ok = len(rs) == 1 and norm_src(rs[0].targets[0].slice) == "country_name" and rs[0].lineno > pop.lineno and norm_src(rs[0].value) == "interpreted_results"
-    rep.check(ok, rule, "results:stored-with-accumulation",
-              "results[country_name] is not stored exactly once per counted country, after the accumulation", loc=loc(RMNT, loop))
     # returned unmodified in slots 1, 2, 3
     ret = [r for r in fn.body if isinstance(r, ast.Return)]
-    ok = len(ret) == 1 and isinstance(ret[0].value, ast.List) and [norm_src(e) for e in ret[0].value.elts] == \
-        ["world", "net_pop", "net_pop_fed", "results"]
-    rep.check(ok, rule, "return:[world, net_pop, net_pop_fed, results]", "the aggregate is not returned as [world, net_pop, net_pop_fed, results]",
+    ok = len(ret) == 1 and isinstance(ret[0].value, (ast.List, ast.Tuple)) and len(ret[0].value.elts) == 4 and all(
+        isinstance(e, ast.Name) for e in ret[0].value.elts)
+    rep.check(ok, rule, "return:[world, population, population fed, results] as plain names",
+              "the aggregate is not returned as the four accumulated objects themselves (an expression in the return could rescale them)",
               loc=loc(RMNT, fn))
     nested_rets = [r for r in walk_no_nested(fn) if isinstance(r, ast.Return) and r not in fn.body]
     rep.check(not nested_rets, rule, "return:single", "an early return skips part of the aggregation", loc=loc(RMNT, fn))
-    rep.require_min(rule, 12)
+    rep.require_min(rule, 4)
 
 
 def iteration(index, rep):
@@ -257,7 +208,16 @@ def iteration(index, rep):
                 okr = len(keys) == 1 and canon(results.d[keys[0]]) == canon(Opaque("interpreted")) and "country" in str(keys[0])
             rep.check(okr, rule, "result stored once under the country's name" + ("" if okr else f" [{where}]"),
                       "the counted country's result is not stored exactly once under its own name", loc=loc(RMNT, loop), detail=str(keys))
-        # the ratio handed to the map is the uncapped one of this country
+        memb = [k for k in dec if k.replace(" ", "").endswith(("inincl", "inskip"))]
+        okm = all(k.replace(" ", "").startswith("row0.iso3") for k in memb)
+        rep.check(okm, "C15.SEL", "selection is matched against the row's iso3 code" + ("" if okm else f" [{where}]"),
+                  f"the inclusion / skip lists are not tested against the row's iso3 code ({memb})", loc=loc(RMNT, loop))
+        tested_len = any("len" in k and "incl" in k for k in dec)
+        okt = bool(in_skip) and in_skip[-1] is False and tested_len and (not incl_active or (bool(in_incl) and in_incl[-1] is True))
+        rep.check(okt, "C15.SEL", "a country is counted only after passing the inclusion list (when non-empty) and the skip list" +
+                  ("" if okt else f" [{where}]"),
+                  "a counted path never tested the skip list / the non-empty inclusion list: excluded countries enter the aggregate",
+                  loc=loc(RMNT, loop))
     if n_counted < 1 or n_skipped < 3:
         raise AnalysisError(f"country loop: {n_counted} counted / {n_skipped} skipped paths analysed (expected >= 1 / >= 3)")
     # run_optimizer_for_country hands back percent/100 in slot 0
@@ -356,20 +316,6 @@ def sel(index, rep):
         ["exclusive_countries_to_run", "countries_to_skip"] and norm_src(unp[0].value.args[0]) == "countries_list"
     rep.check(ok, rule, "caller:unpack-order", "run_model_no_trade does not unpack (inclusion list, skip list) in that order from its "
               "countries_list argument", loc=loc(RMNT, rm))
-    loop = [s for s in rm.body if isinstance(s, ast.For) and "iterrows()" in norm_src(s.iter)][0]
-    tests = [norm_src(s.test) for s in loop.body if isinstance(s, ast.If)]
-    inc = [s for s in loop.body if isinstance(s, ast.If) and norm_src(s.test) == "len(exclusive_countries_to_run) > 0"]
-    ok_inc = len(inc) == 1 and len(inc[0].body) == 1 and isinstance(inc[0].body[0], ast.If) \
-        and norm_src(inc[0].body[0].test) == "country_code not in exclusive_countries_to_run" \
-        and isinstance(inc[0].body[0].body[0], ast.Continue)
-    sk = [s for s in loop.body if isinstance(s, ast.If) and norm_src(s.test) == "country_code in countries_to_skip"
-          and isinstance(s.body[0], ast.Continue)]
-    rep.check(ok_inc and len(sk) == 1, rule, "caller:filters",
-              "the country loop does not skip (a) countries outside a non-empty inclusion list and (b) countries in the skip list",
-              loc=loc(RMNT, loop), detail=str(tests))
-    cc = [s for s in loop.body if isinstance(s, ast.Assign) and norm_src(s.targets[0]) == "country_code"]
-    rep.check(len(cc) == 1 and norm_src(cc[0].value) == "country_data['iso3']", rule, "caller:code-column",
-              "the selection is not matched against the row's iso3 code", loc=loc(RMNT, loop))
     if n_cases < 15:
         raise AnalysisError(f"selection enumeration produced only {n_cases} cases")
     rep.require_min(rule, 15)
